@@ -2,7 +2,9 @@
 
 Model:    lean/DaskModel/Model/Diagnostics.lean (Profiler and Cache as folds over the callback log of the
           scheduler model), theorems lean/DaskModel/Props/C52.lean
-Tie:      `prof`  — the real `Profiler` (its clock replaced by a deterministic counter) inside one context over 1-3
+Tie:      `cprof` — the real `CacheProfiler` (counter clock) over 1-3 calls: its `results` vs the model fold over the same
+                    (event, time, released set) sequence + the clauses evaluated directly;
+          `prof`  — the real `Profiler` (its clock replaced by a deterministic counter) inside one context over 1-3
                     scheduler calls (sync / threaded, some with a failing task), re-entered afterwards: its
                     `results` vs the model fold over the same (event, time) sequence, and the statement's clauses
                     evaluated directly (one entry per completed task and call, start <= end, failed tasks dropped);
@@ -32,7 +34,10 @@ LEVEL_TEXT = (
     "finish - and any non-decreasing clock, `results` gains exactly one entry per key that completed, none for "
     "started-but-failed tasks, each with start <= end (profiler_one_entry_per_completed_task, via profRun_spec); "
     "combined with the scheduler invariant this holds for every graph, worker count, batch size and completion "
-    "order, the entries being exactly the finished tasks (profiler_faithful). (Cache, as repaired by /repo commit "
+    "order, the entries being exactly the finished tasks (profiler_faithful). (CacheProfiler, same method) exactly one "
+    "entry per completed task with cache_time <= free_time and an empty _cache after the call, whatever released sets the "
+    "scheduler shows (cache_profiler_one_entry_per_completed_task, cache_profiler_faithful); an entry is closed at a "
+    "posttask exactly for the keys shown as released (cache_profiler_closes_on_release). (Cache, as repaired by /repo commit "
     "f5744ad) the graph in which cached keys are replaced by their cached values denotes the same values "
     "(patch_isDen), so a computation with the Cache active returns what the original graph denotes for every "
     "completion order (cache_transparent), and everything _posttask stores - under any eviction - is again a denoted "
@@ -180,6 +185,98 @@ def case_prof(ctx, inp):
         ctx.branch("prof:entries")
 
 
+def case_cprof(ctx, inp):
+    """the real CacheProfiler (deterministic counter clock) over 1-3 scheduler calls in one context vs the model fold over
+    the same (event, time, released set) sequence; the clauses: one entry per completed task and call, cache_time <=
+    free_time, an entry is closed at the posttask at which the scheduler shows the key as released, else at finish"""
+    import dask.diagnostics.profile as PM
+    from dask.diagnostics import CacheProfiler
+    from dask.local import get_sync
+    from dask.threaded import get as tget
+    dag = inp["dag"]
+    clock = _Clock()
+    orig = PM.default_timer
+    PM.default_timer = clock
+
+    class RecCProf(CacheProfiler):
+        """the real CacheProfiler; only records which (event, time, released) it processed"""
+
+        def __init__(self):
+            super().__init__()
+            self.trace = []
+
+        def _posttask(self, key, value, dsk, state, id):
+            rel = list(state["released"])
+            super()._posttask(key, value, dsk, state, id)
+            self.trace.append((("posttask", key), clock.t, rel))
+
+        def _finish(self, dsk, state, failed):
+            super()._finish(dsk, state, failed)
+            self.trace.append((("finish", bool(failed)), clock.t, []))
+    try:
+        prof = RecCProf()
+        per_call, keys = [], None
+        with prof:
+            for call in inp["calls"]:
+                fails = {int(k): v for k, v in call.get("fails", {}).items()}
+                dsk, keys = U.render(dag, fails)
+                req = U.map_req(call["req"], lambda i: keys[i])
+                n_before, t_before = len(prof.results), len(prof.trace)
+                try:
+                    if call["sched"] == "threaded":
+                        tget(dsk, req, num_workers=call.get("nw", 2), chunksize=call.get("cs", 1))
+                    else:
+                        get_sync(dsk, req)
+                    failed = False
+                except (U.Boom, ValueError):
+                    failed = True
+                per_call.append((call, failed, prof.results[n_before:], prof.trace[t_before:]))
+        idof = {k: i for i, k in enumerate(keys)}
+        results = sorted([idof[r.key], r.cache_time, r.free_time] for r in prof.results)
+        leftover = sorted(idof[k] for k in prof._cache)
+    finally:
+        PM.default_timer = orig
+    for call, failed, entries, seg in per_call:
+        posted = sorted(idof[e[1]] for e, _, _ in seg if e[0] == "posttask")
+        ekeys = sorted(idof[r.key] for r in entries)
+        if ekeys != posted:
+            ctx.fail("CacheProfiler entries are not exactly one per completed (posttask) key of the call",
+                     observed=ekeys, expected=posted)
+        fin_t = [t for e, t, _ in seg if e[0] == "finish"]
+        for r in entries:
+            k = idof[r.key]
+            if not r.cache_time <= r.free_time:
+                ctx.fail("CacheProfiler entry with cache_time > free_time", observed=[k, r.cache_time, r.free_time])
+            own = [t for e, t, _ in seg if e == ("posttask", r.key)]
+            if own and r.cache_time != own[0]:
+                ctx.fail("CacheProfiler cache_time is not the time of the task's posttask", observed=[k, r.cache_time], expected=own[0])
+            freed = [t for e, t, rel in seg if e[0] == "posttask" and r.key in rel and t >= r.cache_time]
+            want = freed[0] if freed else (fin_t[0] if fin_t else None)
+            if want is not None and r.free_time != want:
+                ctx.fail("CacheProfiler free_time is not the moment the scheduler released the key (or the end of the call)",
+                         observed=[k, r.free_time], expected=want)
+        if call.get("fails") and any(int(k) in ekeys for k in call["fails"]):
+            ctx.fail("CacheProfiler recorded an entry for a task that raised", observed=ekeys)
+    if leftover:
+        ctx.fail("CacheProfiler kept entries in _cache after the call finished", observed=leftover)
+    evs = []
+    for e, t, rel in prof.trace:
+        if e[0] == "finish":
+            evs.append([[Sym("finish"), e[1]], t, []])
+        else:
+            evs.append([[Sym("posttask"), idof[e[1]]], t, sorted(idof[x] for x in rel)])
+    model = ctx.lean(Sym("cprof"), evs)
+    ctx.eq("CacheProfiler.results vs model fold", model, [results, leftover])
+    if any(c.get("fails") for c in inp["calls"]):
+        ctx.branch("cprof:failing-call")
+    if len(inp["calls"]) > 1:
+        ctx.branch("cprof:several-calls-in-one-context")
+    if any(c["sched"] == "threaded" for c in inp["calls"]):
+        ctx.branch("cprof:threaded")
+    if any(r[2] < max(x[2] for x in results) for r in results):
+        ctx.branch("cprof:freed-before-the-end")
+
+
 def case_cache(ctx, inp):
     from core import enable_stubs
     enable_stubs()
@@ -296,7 +393,7 @@ def case_keylike(ctx, inp):
     ctx.branch("keylike:" + kind)
 
 
-CASES = {"prof": case_prof, "cache": case_cache, "keylike": case_keylike}
+CASES = {"prof": case_prof, "cprof": case_cprof, "cache": case_cache, "keylike": case_keylike}
 
 
 def _calls(rng, dag, n, fail_p=0.0, evict=False):
@@ -326,6 +423,10 @@ def generate(ctx):
                         shape=rng.choice(["chain", "wide"]))
         yield "prof", {"dag": dag, "calls": _calls(rng, dag, rng.choice([1, 1, 2, 3]), fail_p=0.25),
                        "reenter": rng.random() < 0.2}
+    for _ in range(ctx.n(200, 2000)):
+        dag = U.gen_dag(rng, rng.randint(2, 14), p_data=rng.choice([0.05, 0.2]), p_alias=rng.choice([0.0, 0.1]),
+                        shape=rng.choice(["chain", "wide"]))
+        yield "cprof", {"dag": dag, "calls": _calls(rng, dag, rng.choice([1, 1, 2, 3]), fail_p=0.25)}
     for _ in range(ctx.n(300, 3000)):
         dag = U.gen_dag(rng, rng.randint(2, 12), p_data=rng.choice([0.05, 0.2]), p_alias=rng.choice([0.0, 0.1]),
                         shape=rng.choice(["chain", "wide"]))
